@@ -420,7 +420,7 @@ func runUniverseCase(rng *rand.Rand, thorough bool, out *bufio.Writer, st *stats
 				e.failAt = -1
 			}
 		}
-		if e.kind == 'R' && rng.Intn(2) == 0 && w.damageOK() {
+		if e.kind == 'R' && rng.Intn(2) == 0 && w.damageOK() && w.logHoldsCommitted(u.H) {
 			e.kind = 'D'
 		}
 		evs = append(evs, e.tok())
@@ -475,4 +475,22 @@ func runUniverseCase(rng *rand.Rand, thorough bool, out *bufio.Writer, st *stats
 			st.Samples = append(st.Samples, smp)
 		}
 	}
+}
+
+// logHoldsCommitted: the premise of the damaged-restart fault, in substance - what only the snapshot
+// about to be lost holds must be in the log as committed: a stale entry left under that snapshot (by a
+// crash between persisting an installed snapshot and dropping the suffix it replaces) is not a copy
+// of the committed entry, and losing the only copy to a disk fault is not a fault Raft recovers from
+func (w *world) logHoldsCommitted(H []entry) bool {
+	fb, _, newest := w.snaps.damageNewest3(true)
+	for i := fb + 1; i <= newest; i++ {
+		var l raft.Log
+		if w.st.InmemStore.GetLog(i, &l) != nil {
+			return false
+		}
+		if int(i) > len(H) || int(l.Term) != H[i-1].term {
+			return false
+		}
+	}
+	return true
 }
